@@ -5,6 +5,9 @@ VERIF = os.path.dirname(os.path.dirname(os.path.abspath(__file__)))
 
 # id -> (category, technique, text, note, design_ref)
 CHECKS = {
+    'C12': ('exploration', 'trace monitoring of the real driver (mpmon): recorded SetLinear/QuadraticObjective events judged by an exact independent evaluator through the delivered functional DAG',
+            'Random models with 0-4 objectives of mixed sense and linear/quadratic/nonlinear content are run through the real option parser, NL reader and converter for objno unset/0..N+1, multiobj on/off and quadratic objectives accepted or not; the number, order and sense of the delivered objectives, their value at every point of the gridded domain, the rejection of objno > N and the objno echoed in the .sol are checked.',
+            'own NL text encoder and exact (Fraction) evaluator; all flat constraint types accepted natively so that auxiliary values follow by forward evaluation; text NL input only', '2/C12'),
     'C10': ('exploration', 'exhaustive enumeration of status codes through the real driver (scripted backend in the monitor driver mpmon), judged against the documented table',
             'Every code -200..999 x presence of primal/dual/objective values is scripted into a real driver run (RunBackendApp, FlatBackend<MIPBackend>, real .sol writer); the classification predicates, the solve message, the objno line of the parsed .sol and the -! table are compared with the ranges in features-guide.rst. Exhaustive over the stated finite space.',
             'the documentation table is the specification; the .sol is parsed by our own strict parser; one fixed 3-variable LP', '2/C10'),
